@@ -119,7 +119,7 @@ func genCrashCfg(r *rng, tier string, prop string) CrashCfg {
 	c.PostWork = r.Chance(0.5)
 	c.MaxImages = 400
 	c.CleanRestartInSetup = r.Chance(0.25)
-	if r.Chance(0.2) || os.Getenv("VERIF_FORCE_CHURN") != "" {
+	if r.Chance(0.2+map[string]float64{"C08": 0.2}[prop]) || os.Getenv("VERIF_FORCE_CHURN") != "" {
 		// eviction pressure: one table whose heap is larger than the frames that are not pinned for
 		// good, minimum pool, long transactions of scan-path statements: dirty pages of the open
 		// transaction are evicted in the middle of statements (steal)
@@ -134,7 +134,7 @@ func genCrashCfg(r *rng, tier string, prop string) CrashCfg {
 		c.NOps = 12 + r.Intn(20)
 		c.CleanRestartInSetup = false
 		c.MaxImages = 80
-		c.Churn = r.Chance(0.5) || os.Getenv("VERIF_FORCE_CHURN") != ""
+		c.Churn = r.Chance(0.5+map[string]float64{"C08": 0.25}[prop]) || os.Getenv("VERIF_FORCE_CHURN") != ""
 		if c.Churn {
 			c.NOps = 70 + r.Intn(50) // refill: enough inserts for the indexes to split nodes again
 		}
